@@ -2,7 +2,7 @@
 from __future__ import annotations
 
 from ..grammar import cmp_writer
-from .wire import Wire, fdesc
+from .wire import Wire, fdesc, spec_tagged_default_term
 
 PID = "C02"
 LEVEL = "other"
@@ -34,6 +34,9 @@ def check(rep, ctx):
                     "staged bytes are flushed once after the count", floor=800)
     R_TE = rep.rule("C02-tagged-elision", "a tagged field is emitted on exactly the paths where it was not found equal "
                     "to its default", floor=30)
+    R_TV = rep.rule("C02-tagged-default-value", "the constant a tagged field is elided against is the default the definition gives it",
+                    floor=50, necessary_because="a value equal to the real default must be omitted and any other value written; "
+                                                 "CurrentLeader(0, 0, '', 0) is not the default of UpdateRaftVoterResponse.current_leader")
     R_P = rep.rule("C02-plan", "a writer plan can be derived for the class", floor=1600)
     n_tagged_paths = 0
     for key, cls, plan in W.classes():
@@ -68,6 +71,21 @@ def check(rep, ctx):
                       message="; ".join(diffs), details={"writer": w, "spec": spec}, **W.codec_loc(pf.get("w_codec")))
             if len(rep.samples) < 3 and item["kind"] == "regular":
                 rep.sample({"obligation": "C02-field", "field": construct, "spec": spec, "writer": w})
+        import json as _json
+        for item in W.fields(key, cls, plan):
+            if item["kind"] != "tagged":
+                continue
+            f = item["f"]
+            want = spec_tagged_default_term(ctx, key, f["name"])
+            if want is None:
+                continue
+            consts = []
+            for tp in wr["tagged_paths"]:
+                for term, pol in tp["elided"]:
+                    if term[0] == "eq" and isinstance(term[1], list) and term[1][0] == "attr" and term[1][2] == f["name"] and term[2] not in consts:
+                        consts.append(term[2])
+            rep.check(R_TV, consts == [want], construct=f"{key}.{f['name']}", stmt=f"elided when equal to {consts}",
+                      message=f"the writer omits the field when it equals {consts} but the definition's default is {want}", **W.floc(cls, f))
         if not flexible or not wr["flexible"]:
             continue
         # tagged section
@@ -108,6 +126,7 @@ def check(rep, ctx):
                       message=f"{len(seen_emit_sets)} emission patterns reachable, expected {2 ** len(all_tags)} "
                               f"(each tagged field independently elided or emitted)", instance=f"{key}|patterns",
                       **W.codec_loc(wr["codec"]))
+    W.finish(rep)
     rep.extra.update(classes=len(S.classes), tagged_section_paths=n_tagged_paths, engine_stats=W.bundle.get("stats"))
     rep.trusted_base += ["struct.pack/unpack format semantics (calcsize, byte order, two's complement)",
                          "kverif/spec.py + kverif/grammar.py: the protocol tables written from the Kafka protocol guide, KIP-482, KIP-893"]
